@@ -23,6 +23,7 @@ META = {
 KNOBS = dict(closures=True, closure_bias=0.1, defs=2, max_depth=2, block_len=(1, 4), wrap_target=True)
 POOLS = [(1, 1), (1, 256), (2, 2), (4, 256)]
 MARK = re.compile(r"println\(\(\(0 \+ \(1 \* (.*)\)\)\)\.inspect\)$")
+TAILCALL = re.compile(r"^    \(0 \+ (f\d+\([^()]*(?:\([^()]*\)[^()]*)*\))\)$")
 CALLW = re.compile(r"^println\(\((\w+)\.w\((.*)\)\)\.inspect\)$")
 
 
@@ -44,17 +45,23 @@ def variants(src):
             in_w = True
             found = True
             gen.append(ln.replace("  def w(", "  def *w(", 1))
+            # a helper whose promise is still pending when it is awaited: the body really suspends
+            asy += ["  async def slowid(x: Int): Int", "    var spin = 0", "    while spin < 3000", "      spin += 1", "    end", "    x", "  end"]
             asy.append(ln.replace("  def w(", "  async def w(", 1))
             continue
         if in_w and ln == "  end":
             in_w = False
+            # async variant: a result that is a plain method call stays in tail position
+            t = TAILCALL.match(asy[-1]) if asy else None
+            if t:
+                asy[-1] = "    " + t.group(1)
         m = MARK.search(ln)
         # a yield cannot sit inside a closure body: the generator only marks statement-level prints of w
         if in_w and clo_indent is None and ln.rstrip().endswith("->"):
             clo_indent = ind
         if in_w and m and "->" not in ln and clo_indent is None:
             gen.append(ln[:m.start()] + f"yield (0 + (1 * {m.group(1)}))")
-            asy.append(ln)
+            asy.append(ln[:m.start()] + f"println(((0 + (1 * (await slowid({m.group(1)}))))).inspect)")
             continue
         c = CALLW.match(ln)
         if c and not in_w:
